@@ -187,8 +187,9 @@ class TriangularLinearOperator(LinearOperator, _TriangularLinearOperatorBase):
         if logdet:
             diag = self._diagonal()
             logdet_term = self._diagonal().abs().log().sum(-1)
-            if torch.sign(diag).prod(-1) < 0:
-                logdet_term = torch.full_like(logdet_term, float("nan"))
+            logdet_term = torch.where(
+                torch.sign(diag).prod(-1) < 0, torch.full_like(logdet_term, float("nan")), logdet_term
+            )
         else:
             logdet_term = torch.empty(0, dtype=self.dtype, device=self.device)
         if inv_quad_term.numel() and reduce_inv_quad:
